@@ -352,7 +352,11 @@ class _P(object):
             elif self.tok == ('op', '('):
                 args = self.raw_until_close('(')
                 parts = _split_args(args)
-                base = '%s(%s)' % (base, ', '.join(_P(a).full() if a.strip() else '' for a in parts))
+                if base in OPAQUE_CALLS:
+                    # call-like macro whose arguments are index expressions (not value arithmetic)
+                    base = '%s(%s)' % (base, args)
+                else:
+                    base = '%s(%s)' % (base, ', '.join(_P(a).full() if a.strip() else '' for a in parts))
             elif self.tok in (('op', '.'), ('op', '->')):
                 op = self.tok[1]
                 self.next()
@@ -371,6 +375,9 @@ class _P(object):
 
 
 _TYPES = set()
+# names of call-like macros whose arguments the UF parser leaves verbatim (index expressions such as
+# VREF(b, j+1)); empty by default, units add to it
+OPAQUE_CALLS = set()
 
 
 def _is_type(t):
